@@ -29,7 +29,7 @@ EPS = 2.3e-16
 
 def generate(tier, seed):
     rng = np.random.default_rng([seed, 6])
-    n = {"quick": 40, "thorough": 400}[tier]
+    n = {"quick": 40, "thorough": 3000}[tier]
     cases = []
     for rep in range(n):
         for v in kc.VARIANTS:
